@@ -515,9 +515,9 @@ def r5_new_key(ctx):
 
     r5_key_material_rule(_Proxy(ctx))
     # clone mode: the CLI passes the caller's password as the new password
-    mn = ctx.corpus.module('main').functions.get('_cmd_handler')
+    mn = next((f for f in ctx.corpus.module('main').all_functions if any((dotted(c.func) or '').endswith('.add_key') for c in calls_in(f.node))), None)
     if mn is None:
-        raise AnalysisError('C17.R5: __main__._cmd_handler missing')
+        raise AnalysisError('C17.R5: no function of __main__ calls Repository.add_key')
     ok = False
     for c in calls_in(mn.node):
         if (dotted(c.func) or '').endswith('add_key'):
